@@ -51,8 +51,16 @@ VARIABLES a0,      \* the original matrix
           dy       \* history: every entry computed so far is a dyadic rational, i.e. the float run is exact
 vars == <<a0, a, p, pcount, i, imax, pc, dy>>
 
+\* the matrices explored: by default every matrix over ReSet; for n = 4 (too many) the configuration overrides
+\* InitMats <- Family4: every row order (pivoting path) of three fixed matrices, one of them with a zero column
+InitMats == [Idx -> [Idx -> ReSet]]
+Base4 == << << <<4, 1, 0, 1>>, <<1, 2, 1, 0>>, <<0, 1, 2, 1>>, <<2, 0, 1, 4>> >>,
+            << <<-4, 1, 2, 0>>, <<1, -2, 0, 1>>, <<2, 0, 4, -1>>, <<0, 1, -1, 2>> >>,
+            << <<2, 0, 1, 1>>, <<1, 0, 2, 0>>, <<4, 0, 1, 2>>, <<1, 0, 0, 1>> >> >>
+PermsOfIdx == {f \in [Idx -> Idx] : \A x, y \in Idx : x # y => f[x] # f[y]}
+Family4 == {[r \in Idx |-> Base4[k][f[r]]] : f \in PermsOfIdx, k \in 1..Len(Base4)}
 Init ==
-    /\ \E m \in [Idx -> [Idx -> ReSet]] : a0 = MatOfRe(m)
+    /\ \E m \in InitMats : a0 = MatOfRe(m)
     /\ a = a0 /\ p = [k \in Idx |-> k] /\ pcount = NN /\ i = 1 /\ imax = 1 /\ pc = "pivot" /\ dy = TRUE
 
 \* for k in i..n { if |a[k,i]|.re > max_a { max_a = ..; imax = k } }  : first strict maximum
